@@ -131,3 +131,134 @@ Proof.
   intros H ->. rewrite basket_rows_eq, !sort_by_length.
   rewrite <- (Permutation_length (rows_unsorted_delete _ _ _ _ H)). reflexivity.
 Qed.
+
+(* ------------------------------------------------------------------ *)
+(* the index order: (start date, batch denom)                          *)
+(* ------------------------------------------------------------------ *)
+
+Lemma byte_N_inj a c : byte_N a = byte_N c -> a = c.
+Proof.
+  unfold byte_N. intros H. pose proof (Byte.of_to_N a) as Ha. pose proof (Byte.of_to_N c) as Hc.
+  rewrite H in Ha. congruence.
+Qed.
+
+Lemma bytes_cmp_eq : forall x y, bytes_cmp x y = Eq <-> x = y.
+Proof.
+  induction x as [|a x IH]; destruct y as [|c y]; cbn [bytes_cmp]; split; intros H; try congruence; try discriminate.
+  - destruct (N.compare_spec (byte_N a) (byte_N c)) as [E|E|E]; try discriminate.
+    apply byte_N_inj in E. apply IH in H. congruence.
+  - inversion H; subst. rewrite N.compare_refl. apply IH. reflexivity.
+Qed.
+
+Lemma bytes_cmp_opp : forall x y, bytes_cmp y x = CompOpp (bytes_cmp x y).
+Proof.
+  induction x as [|a x IH]; destruct y as [|c y]; cbn [bytes_cmp]; try reflexivity.
+  rewrite (N.compare_antisym (byte_N a) (byte_N c)).
+  destruct (byte_N a ?= byte_N c)%N; cbn [CompOpp]; [apply IH | reflexivity | reflexivity].
+Qed.
+
+Lemma bytes_cmp_trans : forall x y z, bytes_cmp x y <> Gt -> bytes_cmp y z <> Gt -> bytes_cmp x z <> Gt.
+Proof.
+  induction x as [|a x IH]; intros y z Hxy Hyz.
+  - destruct z; cbn; discriminate.
+  - destruct y as [|c y]; [cbn in Hxy; congruence|]. destruct z as [|e z]; [cbn in Hyz; congruence|].
+    cbn [bytes_cmp] in *.
+    destruct (N.compare_spec (byte_N a) (byte_N c)) as [E1|E1|E1]; try congruence;
+      destruct (N.compare_spec (byte_N c) (byte_N e)) as [E2|E2|E2]; try congruence;
+      destruct (N.compare_spec (byte_N a) (byte_N e)) as [E3|E3|E3]; try discriminate; try lia.
+    eapply IH; eassumption.
+Qed.
+
+Definition row_key (x : bytes * basket_balance) : Z := ts_total_nanos (bb_start x.2).
+
+Lemma bb_leb_spec x y :
+  bb_leb x y = true <-> row_key x < row_key y \/ (row_key x = row_key y /\ bytes_cmp x.1 y.1 <> Gt).
+Proof.
+  unfold bb_leb, row_key, ts_compare.
+  destruct (Z.compare_spec (ts_total_nanos (bb_start x.2)) (ts_total_nanos (bb_start y.2))) as [E|E|E].
+  - destruct (bytes_cmp x.1 y.1); split; intros H; try discriminate; try reflexivity.
+    + right. split; [exact E | discriminate].
+    + right. split; [exact E | discriminate].
+    + destruct H as [H|[_ H]]; [lia | congruence].
+  - split; [intros _; left; exact E | reflexivity].
+  - split; [discriminate | intros [H|[H _]]; lia].
+Qed.
+
+Lemma bb_leb_total x y : bb_leb x y = true \/ bb_leb y x = true.
+Proof.
+  rewrite !bb_leb_spec. destruct (Z.lt_trichotomy (row_key x) (row_key y)) as [H|[H|H]]; [auto | | auto].
+  destruct (bytes_cmp x.1 y.1) eqn:E.
+  - left. right. split; [exact H | congruence].
+  - left. right. split; [exact H | congruence].
+  - right. right. split; [lia|]. rewrite bytes_cmp_opp, E. discriminate.
+Qed.
+
+Lemma bb_leb_trans x y z : bb_leb x y = true -> bb_leb y z = true -> bb_leb x z = true.
+Proof.
+  rewrite !bb_leb_spec. intros [H1|[H1 C1]] [H2|[H2 C2]]; [left; lia | left; lia | left; lia|].
+  right. split; [lia | eapply bytes_cmp_trans; eassumption].
+Qed.
+
+Lemma bb_leb_antisym x y : bb_leb x y = true -> bb_leb y x = true -> x.1 = y.1.
+Proof.
+  rewrite !bb_leb_spec. intros [H1|[H1 C1]] [H2|[H2 C2]]; try lia.
+  apply bytes_cmp_eq. rewrite bytes_cmp_opp in C2. destruct (bytes_cmp x.1 y.1); [reflexivity | | congruence].
+  cbn in C2. congruence.
+Qed.
+
+(* bb_leb looks only at the start date and the denom *)
+Lemma bb_leb_same_key_l x x' y : x'.1 = x.1 -> bb_start x'.2 = bb_start x.2 -> bb_leb x' y = bb_leb x y.
+Proof. intros H1 H2. unfold bb_leb. rewrite H1, H2. reflexivity. Qed.
+
+Lemma rows_sorted m id : StronglySorted (lebR bb_leb) (sort_by bb_leb (rows_unsorted m id)).
+Proof. apply sort_by_sorted; [apply bb_leb_total | apply bb_leb_trans]. Qed.
+
+Lemma rows_antisym m id x y :
+  x ∈ rows_unsorted m id -> y ∈ rows_unsorted m id -> bb_leb x y = true -> bb_leb y x = true -> x = y.
+Proof.
+  destruct x as [d1 b1], y as [d2 b2]. intros H1 H2 L1 L2.
+  pose proof (bb_leb_antisym _ _ L1 L2) as E. cbn [fst] in E. subst d2.
+  apply rows_unsorted_elem in H1. apply rows_unsorted_elem in H2. congruence.
+Qed.
+
+(* the sorted scan is determined by the set of rows *)
+Lemma rows_unique m id l :
+  StronglySorted (lebR bb_leb) l -> l ≡ₚ rows_unsorted m id -> sort_by bb_leb (rows_unsorted m id) = l.
+Proof.
+  intros Hs Hp. apply (sorted_unique bb_leb).
+  - intros x y Hx Hy. rewrite sort_by_perm in Hx, Hy. apply (rows_antisym m id); assumption.
+  - apply rows_sorted.
+  - exact Hs.
+  - rewrite sort_by_perm. symmetry. exact Hp.
+Qed.
+
+(* deleting the first row of the scan leaves the rest of the scan *)
+Lemma rows_delete_head m id d bb rest :
+  sort_by bb_leb (rows_unsorted m id) = (d, bb) :: rest ->
+  sort_by bb_leb (rows_unsorted (delete (id, d) m) id) = rest.
+Proof.
+  intros H.
+  assert (Hrow : m !! (id, d) = Some bb).
+  { apply rows_unsorted_elem. rewrite <- (sort_by_perm bb_leb), H. left. }
+  pose proof (rows_sorted m id) as Hs. rewrite H in Hs. apply StronglySorted_inv in Hs. destruct Hs as [Hs _].
+  apply rows_unique; [exact Hs|].
+  apply (Permutation_cons_inv (a := (d, bb))).
+  rewrite (rows_unsorted_delete _ _ _ _ Hrow), <- H. apply sort_by_perm.
+Qed.
+
+(* rewriting the balance of the first row keeps it first *)
+Lemma rows_update_head m id d bb bb' rest :
+  sort_by bb_leb (rows_unsorted m id) = (d, bb) :: rest -> bb_start bb' = bb_start bb ->
+  sort_by bb_leb (rows_unsorted (<[(id, d) := bb']> m) id) = (d, bb') :: rest.
+Proof.
+  intros H Hst.
+  assert (Hrow : m !! (id, d) = Some bb).
+  { apply rows_unsorted_elem. rewrite <- (sort_by_perm bb_leb), H. left. }
+  pose proof (rows_sorted m id) as Hs. rewrite H in Hs. apply StronglySorted_inv in Hs. destruct Hs as [Hs Hhd].
+  apply rows_unique.
+  - constructor; [exact Hs|]. eapply Forall_impl; [|exact Hhd]. intros y Hy. unfold lebR in *.
+    rewrite <- Hy. apply bb_leb_same_key_l; [reflexivity | exact Hst].
+  - rewrite <- insert_delete_insert. rewrite rows_unsorted_insert_fresh by apply lookup_delete.
+    constructor. apply (Permutation_cons_inv (a := (d, bb))).
+    rewrite (rows_unsorted_delete _ _ _ _ Hrow), <- H. apply sort_by_perm.
+Qed.
